@@ -42,6 +42,7 @@ type event struct {
 type hcase struct {
 	frag, rate  int
 	disk        bool
+	conc        int  // client goroutines of their own that poll playlist → newest listed segment during the whole session
 	inband      bool // SPS/PPS are not in the SDP (the packetizer is built without them): they arrive as NAL units in front of the first IDR
 	path, token string
 	sps, pps    []byte
@@ -52,7 +53,7 @@ type hcase struct {
 
 func (k *hcase) line() string {
 	var b strings.Builder
-	fmt.Fprintf(&b, "c10 run frag=%d rate=%d disk=%s wire=%s inband=%s path=%s token=%s sps=%s pps=%s ascraw=%s", k.frag, k.rate, B01(k.disk),
+	fmt.Fprintf(&b, "c10 run frag=%d rate=%d disk=%s conc=%d wire=%s inband=%s path=%s token=%s sps=%s pps=%s ascraw=%s", k.frag, k.rate, B01(k.disk), k.conc,
 		B01(strings.HasPrefix(k.tag, "wire")), B01(k.inband), Hx([]byte(k.path)), Hx([]byte(k.token)), Hx(k.sps), Hx(k.pps), Hx(k.ascraw))
 	for _, e := range k.evs {
 		switch e.kind {
@@ -89,6 +90,8 @@ func parseCase(l string) *hcase {
 				k.disk = kv[1] == "1"
 			case "inband":
 				k.inband = kv[1] == "1"
+			case "conc":
+				k.conc, _ = strconv.Atoi(kv[1])
 			case "wire":
 				if kv[1] == "1" {
 					k.tag = "wire-corpus"
@@ -207,6 +210,25 @@ func runImpl(k *hcase, in string) (res result) {
 	ap := mpegts.NewAacPacketizer(am, sg)
 	captured := map[int][]byte{}
 	var held []heldReader
+
+	// HLS clients inside the roll-overs (see rollover.go): one on the generator's goroutine at its
+	// schedule points, k.conc goroutines of their own
+	rc := newRolloverClients(k, in, &res,
+		func() ([]byte, bool) { b, err := pl.M3u8(k.token); return b, err == nil },
+		func(seq int) ([]byte, int, bool) {
+			r, n, err := pl.Segment(seq)
+			if err != nil {
+				return nil, 0, false
+			}
+			b, _ := ioutil.ReadAll(r)
+			if c, ok := r.(io.Closer); ok {
+				c.Close()
+			}
+			return b, n, true
+		})
+	sg.VerifOnRollover(rc.atPoint)
+	rc.start()
+	defer func() { rc.finish(); sg.VerifOnRollover(nil) }()
 
 	fetch := func(seq int) ([]byte, bool) {
 		r, _, err := pl.Segment(seq)
@@ -355,6 +377,7 @@ func runImpl(k *hcase, in string) (res result) {
 				Impl: fmt.Sprintf("panic in a client call or in Close: %v", r), Spec: "no panic"})
 		}
 	}()
+	rc.finish()
 	if !res.panicked {
 		query()
 		readHeld()
@@ -439,6 +462,9 @@ func genCase(c *Ctx) *hcase {
 	}
 	ch := 1 + c.Rng.Intn(2)
 	k.ascraw = aac.Encode2BytesASC(2, byte(rateIdx[k.rate]), byte(ch))
+	if c.Rng.Chance(12) {
+		k.conc = 1 + c.Rng.Intn(2)
+	}
 	fragT := int64(k.frag) * 90000
 	// shape of the stream
 	shape := c.Rng.Intn(8)
@@ -704,13 +730,17 @@ func run(c *Ctx) {
 		for i := 0; i < n; i++ {
 			cases = append(cases, genCase(c))
 		}
+		for i := 0; i < c.Budget(3, 16); i++ {
+			cases = append(cases, bigCase(c, i%3 != 2, []int{2, 1, 2, 0, 3}[i%5]))
+		}
 		nw := c.Budget(8, 50)
 		for i := 0; i < nw; i++ {
 			cases = append(cases, genWireCase(c))
 		}
 	}
 	c.Res.Rule = "case = one HLS session: fragment length, audio rate, storage mode (memory/disk), path, token, SPS/PPS/ASC and a time-ordered list of video NAL units " +
-		"and AAC frames with interleaved client actions (playlist+segment query, take a reader for a listed segment, read the held readers); " +
+		"and AAC frames with interleaved client actions (playlist+segment query, take a reader for a listed segment, read the held readers), " +
+		"an HLS client (playlist → newest URI → segment) run at every schedule point of every roll-over and, in part of the sessions, client goroutines of their own doing the same all the time; " +
 		"distinct by the full input; non-trivial when at least three segments were completed (a playlist was served)"
 
 	lines := make([]string, len(cases))
@@ -803,6 +833,14 @@ func run(c *Ctx) {
 			c.Count("storage:disk")
 		} else {
 			c.Count("storage:memory")
+		}
+		if k.conc > 0 {
+			c.Count("with-concurrent-client-goroutines" + map[bool]string{true: ":disk", false: ":memory"}[k.disk])
+		}
+		for n, v := range r.notes {
+			if strings.HasPrefix(n, "rollover-") {
+				c.CountN(n+map[bool]string{true: ":disk", false: ":memory"}[k.disk], v)
+			}
 		}
 		c.Count(fmt.Sprintf("segments-completed:%s", bucket(r.segsDone)))
 		if k.token != "" {
